@@ -64,3 +64,45 @@ package extendeddaemonset
 //@   ensures [C05,C08] paused-not-promoted-by-time: activeRS != nil && activeRS != upToDateRS && C != nil && paused && !valid ==> result == activeRS
 //@   ensures promotes-when-allowed: activeRS != nil && activeRS != upToDateRS &&
 //@             (C == nil || valid || (C.ValidationMode == "auto" && timeOK && C.Duration.Duration > 0 && !paused && !failed)) ==> result == upToDateRS
+//@
+//@ import edsconditions "github.com/DataDog/extendeddaemonset/controllers/extendeddaemonset/conditions"
+//@
+//@ func nonCanaryState
+//@   transparent
+//@   ensures [C08,C14] state-string: result == ite(IsRolloutFrozen(dsAnnotations), "Rollout frozen", ite(IsRollingUpdatePaused(dsAnnotations), "RollingUpdate Paused", "Running"))
+//@
+//@ func isCanaryActive
+//@   transparent
+//@   requires daemonset != nil
+//@   ensures [C14] result <==> daemonset.Spec.Strategy.Canary != nil && !isCanaryFailed && activeERSName != upToDateERSName
+//@
+//@ func manageStatus
+//@   transparent
+//@   requires status != nil && upToDate != nil && daemonset != nil
+//@   modifies *status, *status.Canary
+//@   ensures result == status
+//@   ensures [C07,C14] failed-clears-canary: isCanaryFailed ==> status.Canary == nil && status.State == "Canary Failed" && status.Reason == ""
+//@             && status.Desired == old(status.Desired) && status.UpToDate == old(status.UpToDate)
+//@   ensures [C08,C14,C19] active-paused: !isCanaryFailed && isCanaryActive && isCanaryPaused ==> status.State == "Canary Paused" && status.Reason == pausedReason
+//@   ensures [C14,C19] active-running: !isCanaryFailed && isCanaryActive && !isCanaryPaused ==> status.State == "Canary" && status.Reason == ""
+//@   ensures [C04,C14] active-bookkeeping: !isCanaryFailed && isCanaryActive ==> status.Canary != nil && status.Canary.ReplicaSet == upToDate.ObjectMeta.Name
+//@             && status.Desired == old(status.Desired) + upToDate.Status.Desired && status.UpToDate == upToDate.Status.Current
+//@             && (old(status.Canary) != nil ==> status.Canary == old(status.Canary) && status.Canary.Nodes == old(status.Canary.Nodes))
+//@   ensures [C07,C08,C14] no-canary: !isCanaryFailed && !isCanaryActive ==> status.Canary == nil && status.Reason == ""
+//@             && status.State == nonCanaryState(daemonset.ObjectMeta.Annotations)
+//@   ensures [C05,C07,C14] keeps-the-rest: status.ActiveReplicaSet == old(status.ActiveReplicaSet) && status.Current == old(status.Current)
+//@             && status.Ready == old(status.Ready) && status.Available == old(status.Available) && status.Conditions == old(status.Conditions)
+//@
+//@ func manageCanaryStatusConditions
+//@   requires status != nil
+//@   modifies status.Conditions, elems(status.Conditions)
+//@   ensures [C14] failed-condition: edsconditions.IsConditionTrue(status, v1.ConditionTypeEDSCanaryFailed) <==> isCanaryFailed
+//@   ensures [C14] paused-condition: edsconditions.IsConditionTrue(status, v1.ConditionTypeEDSCanaryPaused) <==> (isCanaryPaused && !isCanaryFailed)
+//@
+//@ func shouldDeleteERS
+//@   transparent
+//@   let failedIdx = conditions.GetIndexForConditionType(&ers.Status, v1.ConditionTypeCanaryFailed)
+//@   ensures [C07] failed-grace-period: ers != nil && conditions.IsConditionTrue(&ers.Status, v1.ConditionTypeCanaryFailed)
+//@             && now < ers.Status.Conditions[failedIdx].LastTransitionTime.Time + 120000000000 ==> !result
+//@   ensures [C07,C13] only-when-it-reports-no-pods: result && ers != nil && ers.Status.Desired >= 0 && ers.Status.Current >= 0 && ers.Status.Ready >= 0 && ers.Status.Available >= 0
+//@             ==> ers.Status.Desired == 0 && ers.Status.Current == 0 && ers.Status.Ready == 0 && ers.Status.Available == 0
